@@ -37,9 +37,10 @@ def history_strategy(opts):
 
     @st.composite
     def gen(draw):
-        prog = draw(G.programs(opts))
+        location = draw(st.sampled_from(["package"] * 5 + ["notebook", "script"]))
+        prog = draw(G.programs(opts if location == "package" else dict(opts, max_mods=1)))
         ents = G.entries(prog)
-        kind, cache = draw(st.sampled_from(STORES))
+        kind, cache = draw(st.sampled_from(STORES if location != "script" else [s for s in STORES if s[0].startswith("local")]))
         persistent = kind in ("local", "local-lru")
         steps = []
         cur = prog
@@ -74,7 +75,7 @@ def history_strategy(opts):
                 snaps.append(cur)
                 steps.append(["revert", k, inproc])
                 steps.append(["eval", root, style])
-        return {"prog": prog, "store": [kind, cache], "steps": steps}
+        return {"prog": prog, "store": [kind, cache], "steps": steps, "location": location}
 
     return gen()
 
@@ -187,15 +188,155 @@ def check_case(case, ev=None, scratch=None, stub_check=False):
             finally:
                 sess.close()
 
-        runner()
+        if case.get("location", "package") == "notebook":
+            run_notebook(case, scratch, on_eval, nt, root0)
+        elif case.get("location") == "script":
+            run_script(case, scratch, on_eval, nt, root0)
+        else:
+            runner()
         if stub_check:
             stub_crosscheck(case, scratch)
         if ev is not None:
             feats = features(case)
-            ev.case(slim(case), nt["hit"], features=feats, key=[M.pkey(case["prog"]), case["steps"], case["store"]])
+            ev.case(slim(case), nt["hit"], features=feats, key=[M.pkey(case["prog"]), case["steps"], case["store"], case.get("location")])
     finally:
         if own:
             scratch.clean()
+
+
+def _edit_flags(nt, cur, stp, root0):
+    tk, ti = M.edit_target(stp[1])
+    cl = M.closure(cur, root0)
+    if nt["evaluated"] and not M.value_preserving(stp[1]) and tk is not None and ti in cl[tk]:
+        nt["edited_inside"] = True
+
+
+def run_notebook(case, scratch, on_eval, nt, root0):
+    """the code lives in IPython cells (module __main__ of an in-process shell); an edit re-runs the changed cells"""
+    import os
+    from ..harness import proc, worker as W
+
+    kind, cache = case["store"]
+    root = scratch.sub()
+    store_dir = scratch.sub()
+
+    def write_ext(prog):
+        files = {"xt/__init__.py": "", "xt/util.py": M.render_ext(prog), "vlog.py": W.VLOG_SRC}
+        for rel, content in files.items():
+            p = os.path.join(root, rel)
+            os.makedirs(os.path.dirname(p), exist_ok=True)
+            with open(p, "w") as f:
+                f.write(content)
+
+    state = {"w": None, "cells": {}}
+
+    def start(prog):
+        if state["w"] is not None:
+            state["w"].close()
+        write_ext(prog)
+        w = proc.Worker()
+        w.call("ipy_init", root=root, store={"kind": kind, "dir": store_dir, "cache": cache})
+        state["w"] = w
+        state["cells"] = {}
+        sync(prog)
+
+    def sync(prog):
+        for (k, i, src) in M.module_cells(prog):
+            if state["cells"].get((k, i)) != src:
+                state["w"].call("ipy_cell", src=src)
+                state["cells"][(k, i)] = src
+
+    cur = case["prog"]
+    snaps = [cur]
+    try:
+        start(cur)
+        for si, stp in enumerate(case["steps"]):
+            k = stp[0]
+            if k == "eval":
+                f = cur["funcs"][stp[1]]
+                res = state["w"].call("ipy_eval", func=f["name"], style=stp[2])
+                on_eval(si, cur, stp[1], stp[2], res)
+            elif k in ("edit", "revert"):
+                if k == "edit":
+                    _edit_flags(nt, cur, stp, root0)
+                    cur = M.apply_edit(cur, stp[1])
+                else:
+                    cur = snaps[stp[1]]
+                    nt["edited_inside"] = nt["edited_inside"] or nt["evaluated"]
+                snaps.append(cur)
+                if stp[2]:
+                    write_ext(cur)
+                    state["w"].call("ipy_cell", src="import importlib, xt.util\nimportlib.reload(xt.util)")
+                    sync(cur)
+                else:
+                    start(cur)
+            elif k == "restart":
+                start(cur)
+    finally:
+        if state["w"] is not None:
+            state["w"].close()
+
+
+SCRIPT_FOOTER = """
+
+if __name__ == "__main__":
+    import base64 as _b64, pickle as _pk, sys as _sys
+    dds.set_store("local", internal_dir={internal!r}, data_dir={data!r}, cache_objects={cache!r})
+    try:
+        _val = dds.eval({func}) if {use_eval!r} else {func}()
+        _out = {{"value": _val, "exc": None, "log": vlog.take()}}
+    except BaseException as _e:
+        _out = {{"value": None, "exc": {{"type": type(_e).__name__, "msg": str(_e)[:400]}}, "log": vlog.take()}}
+    _sys.stdout.write("VFRESULT:" + _b64.b64encode(_pk.dumps(_out)).decode())
+"""
+
+
+def run_script(case, scratch, on_eval, nt, root0):
+    """the code lives in a script run as `python script.py` (module __main__ of a real interpreter)"""
+    import base64
+    import os
+    import pickle
+    import subprocess
+    import sys
+    from ..harness import worker as W
+
+    kind, cache = case["store"]
+    root = scratch.sub()
+    store_dir = scratch.sub()
+    cur = case["prog"]
+    snaps = [cur]
+
+    def run_eval(prog, fi, style):
+        files = {"xt/__init__.py": "", "xt/util.py": M.render_ext(prog), "vlog.py": W.VLOG_SRC}
+        f = prog["funcs"][fi]
+        files["pipeline_script.py"] = M.render_module(prog, 0) + SCRIPT_FOOTER.format(
+            internal=os.path.join(store_dir, "internal"), data=os.path.join(store_dir, "data"), cache=cache, func=f["name"], use_eval=(style == "eval"))
+        for rel, content in files.items():
+            p = os.path.join(root, rel)
+            os.makedirs(os.path.dirname(p), exist_ok=True)
+            with open(p, "w") as fh:
+                fh.write(content)
+        env = dict(os.environ)
+        env["PYTHONPATH"] = os.pathsep.join([common.REPO, root])
+        env["PYTHONDONTWRITEBYTECODE"] = "1"
+        p = subprocess.run([sys.executable, "-W", "ignore", os.path.join(root, "pipeline_script.py")], stdout=subprocess.PIPE, stderr=subprocess.PIPE, env=env, cwd=root)
+        out = p.stdout.decode()
+        if "VFRESULT:" not in out:
+            raise common.HarnessError("script run failed: " + p.stderr.decode()[-1500:])
+        return pickle.loads(base64.b64decode(out.split("VFRESULT:")[1]))
+
+    for si, stp in enumerate(case["steps"]):
+        k = stp[0]
+        if k == "eval":
+            on_eval(si, cur, stp[1], stp[2], run_eval(cur, stp[1], stp[2]))
+        elif k in ("edit", "revert"):
+            if k == "edit":
+                _edit_flags(nt, cur, stp, root0)
+                cur = M.apply_edit(cur, stp[1])
+            else:
+                cur = snaps[stp[1]]
+                nt["edited_inside"] = nt["edited_inside"] or nt["evaluated"]
+            snaps.append(cur)
 
 
 def stub_crosscheck(case, scratch):
@@ -216,6 +357,7 @@ def features(case):
     prog = case["prog"]
     fs = set()
     fs.add("store:" + case["store"][0] + ("" if case["store"][1] is None else str(case["store"][1])))
+    fs.add("location:" + case.get("location", "package"))
     for f in prog["funcs"]:
         if M.is_data(f):
             fs.add("data-function")
@@ -255,7 +397,7 @@ def features(case):
 
 
 def slim(case):
-    return {"store": case["store"], "steps": case["steps"],
+    return {"store": case["store"], "steps": case["steps"], "location": case.get("location", "package"),
             "program": {m: src for m, src in M.render(case["prog"]).items() if m.startswith(M.PKG + "/m")}}
 
 
@@ -265,6 +407,10 @@ def gen_opts():
 
 def shard(idx, n, tier, seed, count):
     ev = Ev()
+    try:  # loaded once here so that the forked notebook workers inherit it
+        import IPython.core.interactiveshell  # noqa
+    except ImportError:
+        pass
     scratch = common.Scratch("vf-c01")
     opts = gen_opts()
     counter = [0]
